@@ -184,7 +184,8 @@ class ModbusTransactionManager(object):
                             delay = 2 ** (self.retries - retries) * self.backoff
                             time.sleep(delay)
                             _logger.debug("Sleeping {}".format(delay))
-                        full = False
+                        # a datagram has to be read in one piece, also on a retry
+                        full = "modbusudpclient" in c_str.lower().strip()
                         broadcast = False
                         retries -= 1
                     addTransaction = partial(self.addTransaction,
